@@ -19,6 +19,8 @@ import json
 import os
 
 import numpy as np
+import re
+
 import z3
 
 from checks import lib
@@ -296,6 +298,19 @@ def unit_kernel(cone, dim, world):
       ref = ref_to_world(ref, [kt.pre("contact_frame_in", cid, k=i) for i in range(9)])
     out = kt.postv("out", tid)
     rp = lambda nm, goal, env: lib.make_replay(ctx, kt, loc, nm, "goal", goal=goal, env=env)
+
+    def rp_inrange(nm, goal, env):
+      """an `inrange` counterexample is reproduced either by the goal (a wrapped negative index reads a foreign cell) or by the
+      bounds assertion of Warp's checked build aborting the single-thread launch (index >= dim)"""
+      inner = rp(nm, goal, env)
+
+      def run(model):
+        ok, text = inner(model)
+        if not ok and isinstance(text, str) and re.search(r"subprocess rc=(-\d+|134)", text):
+          return True, text.split(" (subprocess")[0]
+        return ok, text
+
+      return run
     ctx.prove(sess, "listed/written", kt.written("out", tid), listed, names=names, replay=rp("written", "checks.c39:goal_force", {"randomize_floats": 3}), desc=f"contact_force ({cname}, condim {dim}): out[tid] not written for a listed contact")
     for j in range(6):
       ctx.prove(
@@ -324,7 +339,7 @@ def unit_kernel(cone, dim, world):
       key = (ob.where, ob.info)
       nm = f"inrange/{ob.where}/{ob.info[1]}[{ob.info[2]}]" + (f"#{sum(1 for s in seen if s == key)}" if key in seen else "")
       seen.add(key)
-      ctx.prove(sess, nm, ob.strict, ob.guard, names=names, replay=rp(nm, "checks.c39:goal_force", {"randomize_floats": 3}), desc=f"contact_force ({cname}, condim {dim}): index outside [0, dim) at {ob.where} ({ob.info[1]} dim {ob.info[2]}): wrapped / foreign-cell access")
+      ctx.prove(sess, nm, ob.strict, ob.guard, names=names, replay=rp_inrange(nm, "checks.c39:goal_force", {"randomize_floats": 3}), desc=f"contact_force ({cname}, condim {dim}): index outside [0, dim) at {ob.where} ({ob.info[1]} dim {ob.info[2]}): wrapped / foreign-cell access")
 
   return (f"kernel/{cname}/condim{dim}/{'world' if world else 'local'}", run)
 
